@@ -34,7 +34,7 @@ func c20AdapterExec(a *SocksAdapter) func(conn *c20Conn, o *c20Obs) {
 }
 
 const c20AdapterRule = "every message of the structured grid VER{0,4,5,6,255} x NMETHODS{0,1,2,3,255} x method sets (none acceptable / 00 first / 00 last / 02 first / 02 last / both orders / FF), " +
-	"with and without the RFC 1929 message the selected method calls for; (auth server) sub-negotiation VER{0,1,2,5} x 9 credential variants; and, behind a well-formed negotiation, " +
+	"with and without the RFC 1929 message the selected method calls for; (auth server) sub-negotiation VER{0,1,2,5} x 9 credential variants, and the length sweep (ULEN,PLEN) in {0,1,2,127,128,254,255}^2 + diagonals ULEN=0..255 with PLEN=255-ULEN and PLEN=255 + sums 254/256/257/509/510 (a second server configured with 255-byte credentials makes (255,255) the accepting pair); and, behind a well-formed negotiation, " +
 	"VER x CMD{0,1,2,3,4,255} x RSV{0,1} x ATYP{0,1,3,4,5,255} x name length{0,1,2,3,63,255} x port{0,1,65535}; cut at every truncation point (complete messages are followed by an 8-byte sentinel), " +
 	"each delivered as: one chunk per message, one chunk for everything (greeting+request coalesced), one byte per read, two chunks split at every offset (streams > 40 bytes [thorough: > 100 bytes, unless complete]: field boundaries +-1, offsets 256..258 and 6 seeded offsets; the quick tier subsamples the truncation points of messages > 100 bytes the same way); plus seeded random / mutated streams in random chunking. " +
 	"The real handleHandshake (+handlePasswordAuth) and handleRequest run back to back on a scripted synchronous net.Conn, as handleSocksConnection runs them; an independent RFC 1928/1929 reference parser decides " +
@@ -100,4 +100,31 @@ func TestVerifC20AdapterAuth(t *testing.T) {
 	run.Exhaustive(run.Thorough())
 	mo.runRandom(run.Rand("random"), run.Pick(50000, 1000000))
 	c20AdapterFloors(run, true)
+}
+
+// Same server with maximum-length credentials: ULEN = PLEN = 255 is the ACCEPTING message.
+func TestVerifC20AdapterAuthMaxLen(t *testing.T) {
+	vk.Quiet()
+	run := vk.Start(t, "C20", "adapter-auth-maxlen")
+	defer run.Finish()
+	run.Rule(c20AdapterRule + " [this run: server configured with a 255-byte user name and a 255-byte password; greeting and RFC 1929 grids only]")
+	ctx, cancel := context.WithCancel(context.Background())
+	defer cancel()
+	user, pass := make([]byte, 255), make([]byte, 255)
+	for i := range user {
+		user[i] = byte('a' + i%26)
+		pass[i] = byte('0' + (i*7)%75)
+	}
+	a := NewSocksAdapter(ctx, nil, &SocksConfig{Username: string(user), Password: string(pass)})
+	defer a.Close()
+	cfg := &c20Cfg{Target: "adapter", Name: "adapter-auth-maxlen", Accept: []byte{0x02}, Cmds: []byte{0x01}, User: string(user), Pass: string(pass), AuthOnly: true}
+	mo := &c20Monitor{run: run, cfg: cfg, exec: c20AdapterExec(a)}
+	mo.runGrid(run.Rand("grid"))
+	run.Exhaustive(run.Thorough())
+	run.Floor("agree_accept", 50)
+	run.Floor("agree_reject", 5000)
+	run.Floor("sentinel_checked", 50)
+	for _, w := range []string{"ok", "trunc-auth", "auth-wrong-credentials", "auth-empty-field", "auth-bad-ver"} {
+		run.Floor("why:"+w, 10)
+	}
 }
